@@ -405,7 +405,28 @@ def _kind(x):
     return None
 
 
+def _inf_compare(op, a, b):
+    from .prelude import Inf, Undef
+    other = b if isinstance(a, Inf) else a
+    if op not in ("==", "!="):
+        raise Unsupported("ordering comparison with inf")
+    eq = op == "=="
+    if isinstance(other, Undef):
+        n = 1
+        for s_ in other.shape:
+            n *= s_
+        return NArr(other.shape, [eq] * n)
+    if isinstance(other, NArr):
+        return NArr(other.shape, [not eq] * len(other.data))     # finite reals never equal inf (A-REAL)
+    if is_num(other):
+        return not eq
+    raise Unsupported("comparison with inf")
+
+
 def compare(op, a, b):
+    from .prelude import Inf
+    if isinstance(a, Inf) or isinstance(b, Inf):
+        return _inf_compare(op, a, b)
     if op in ("==", "!="):
         if isinstance(a, NArr) or isinstance(b, NArr):
             return compare_ew(op, a, b)
